@@ -589,10 +589,18 @@ func (f *frame) instr(ins ssa.Instruction, pc string, st *State) string {
 		ln := f.val(i.Len)
 		f.panicOb("makeslice", pc, "(>= "+ln.S+" 0)", i.Pos(), "make: length is non-negative")
 		et := i.Type().Underlying().(*types.Slice).Elem()
-		p := g.fresh(st)
 		if isByteSlice(i.Type()) {
-			fail("%s: make([]byte) is outside the subset", f.fn.Name())
+			// make([]byte, n[, cap]): n zero bytes (byte strings are values: capacity is not modelled)
+			if ln.S == "0" {
+				f.vals[i] = T{"(mk false eps)", "NB"}
+				return pc
+			}
+			z := g.s.decl("zeros", "B")
+			g.s.assumeUnder(pc, eq("(blen "+z.S+")", ln.S))
+			f.vals[i] = T{"(mk false " + z.S + ")", "NB"}
+			return pc
 		}
+		p := g.fresh(st)
 		h := g.elemHeapOf(et)
 		g.writeHeap(st, h, p, g.s.zeroArr(g.sortOf(et), g.zero(et).S))
 		f.vals[i] = g.s.def(i.Name(), T{"(slc " + p + " 0 " + ln.S + " false)", "Slc"})
